@@ -317,3 +317,72 @@ def classes(r):
 def nontrivial(r):
     cl = classes(r)
     return len(r["scn"]["jobs"]) >= 2 and any(c.startswith("abbreviated") for c in cl)
+
+
+# ---- printing from inside a callback while a batch is in flight (threading front end): the table is still one row
+# ---- per registered job and the heading reports their number
+from .. import impl_thr as _impl_thr  # noqa: E402
+
+_table_scenarios, _table_runner, _table_specs, _table_classes, _table_nontrivial = scenarios, runner, specs, classes, nontrivial
+S_ = 1_000_000
+
+
+def inflight_scenario(rng):
+    tz = None if rng.random() < 0.5 else gen.rand_off(rng, "hour")[0]
+    clock = gen.rand_instant(rng)[0] // S_ * S_
+    scn = {"kind": "inflight", "tz": tz, "max_exec": rng.choice([0, 0, 2]), "prio": 0, "clock0": clock, "ops": [],
+           "n_threads": rng.choice([1, 1, 1, 2])}
+    nj = rng.randint(2, 5)
+    for i in range(nj):
+        o = {"op": "sch", "call": rng.choice([0, 0, 5]), "timings": [["c", rng.choice([1, 2, 3]) * S_]], "clock": clock,
+             "w": [rng.randint(1, 5), 1], "payload": i + 1}
+        if o["call"] == 0 and rng.random() < 0.5:
+            o["max_att"] = rng.choice([1, 1, 2])
+        scn["ops"].append(o)
+    t = clock
+    for _ in range(rng.randint(1, 4)):
+        t += rng.choice([3, 4, 5]) * S_
+        scripts = {str(k): [{"op": "str"}] for k in rng.sample(range(nj), rng.randint(1, nj))}
+        scn["ops"].append({"op": "exec", "clock": t, "scripts": scripts, "force": rng.random() < 0.2})
+    return scn
+
+
+def scenarios(rng, n, tier):  # noqa: F811
+    for scn in _table_scenarios(rng, n, tier):
+        yield inflight_scenario(rng) if rng.random() < 0.15 else scn
+
+
+def runner(scn):  # noqa: F811
+    return _impl_thr.run_scenario(scn) if scn.get("kind") == "inflight" else _table_runner(scn)
+
+
+def specs(r):  # noqa: F811
+    if r["scn"].get("kind") != "inflight":
+        return _table_specs(r)
+    qs = []
+    for i, ob in enumerate(r["obs"]):
+        if "truncated" in ob:
+            break
+        for c in ob.get("cops", []):
+            if c["op"] == "str":
+                if not c.get("ok"):
+                    qs.append(("spec eq 0 1", {"what": "str() from a callback raised", "op": i, "err": c.get("err")}))
+                else:
+                    qs.append((f"spec eq {c['heading']} {c['registered']}", {"what": "in-flight print: heading reports the true job count", "op": i}))
+                    qs.append((f"spec eq {c['rows']} {c['registered']}", {"what": "in-flight print: one row per registered job", "op": i, "rows": c["rows"], "registered": c["registered"]}))
+    return qs
+
+
+def classes(r):  # noqa: F811
+    return ["kind:inflight", f"n_threads:{r['scn'].get('n_threads')}"] if r["scn"].get("kind") == "inflight" else _table_classes(r)
+
+
+def nontrivial(r):  # noqa: F811
+    if r["scn"].get("kind") == "inflight":
+        return any(c["op"] == "str" for ob in r["obs"] if isinstance(ob, dict) for c in ob.get("cops", []))
+    return _table_nontrivial(r)
+
+
+RULE += ("; 15% of the scenarios print the threading scheduler from inside callbacks while a batch is in flight (jobs that have just "
+         "used their last attempt are still registered): the heading must report the number of registered jobs and the table "
+         "must have one row for each of them")
